@@ -34,6 +34,9 @@ STAT = [AndersonDarlingTest, BWSTest, ChiSquareTest, CVMTest, KSTest, KuiperTest
 PATH_FORM = [0]
 
 
+PATH_LIKE_REJECTED = [0]
+
+
 def roundtrip(obj, protocol):
     """save + load through a file name whose FORM rotates: absolute path, bare file name relative to the working directory, relative path with a directory part"""
     fd, path = tempfile.mkstemp(suffix=".pkl", dir="/tmp")
@@ -75,8 +78,17 @@ def roundtrip(obj, protocol):
             # `open()` takes any path-like object: `tmp_path / "det.pkl"`, `Path("models") / "ddm.pkl"`
             import pathlib
             name = pathlib.Path(name)
-        save(obj, filename=name, pickle_protocol=protocol)
-        return load(filename=name)
+        try:
+            save(obj, filename=name, pickle_protocol=protocol)
+            return load(filename=name)
+        except TypeError:
+            if isinstance(name, str):
+                raise
+            # the documented type of `filename` is str: an implementation that rejects a path-like object with TypeError rejects a wrong type (no clause of the property is
+            # about the FORM of the file name); the round trip is then made through the same name as a string
+            PATH_LIKE_REJECTED[0] += 1
+            save(obj, filename=str(name), pickle_protocol=protocol)
+            return load(filename=str(name))
     finally:
         if form != 0:
             import shutil
@@ -116,8 +128,9 @@ def concept_case(out: Outcome, rng, cls: str, with_cb: bool, protocol: int, thor
         keep = lambda d: {kk: vv for kk, vv in vars(d).items() if kk not in ("_callbacks",)}  # noqa: E731
         try:
             if snap_val(keep(loaded)) != snap_val(keep(a.det)):
-                out.violation(f"{cls}: the loaded detector does not hold what the saved one held (structural comparison of all attributes)", rep)
-                return
+                # a PRIVATE difference (derived data left out of the pickle and recomputed, a cache) is not a verdict: the property speaks of the observable state and of the
+                # continuation, both judged here (observation right after load above, every output of the continuation below); the difference is counted
+                out.count("private_state_differs_after_load")
         except RecursionError:
             pass
         if with_cb and (loaded.callbacks[0].detector is not loaded):
